@@ -98,6 +98,8 @@ def check(ctx):
     fam = ["C10", "C30", "C12", "phi12", "C23", "semiangle_cutoff", "focal_spread", "angular_spread"] if q else params
     P = []
     for a, b in itertools.combinations(fam, 2):
+        if {a, b} == {"C10", "defocus"}:  # two names of ONE coefficient: not a pair of parameters (the later keyword simply wins)
+            continue
         if not q and a in S and b in S and not (a in ("C10", "C30", "C12", "phi12") or b in ("C10", "C30", "C12", "phi12")):
             continue
         P.append({"space": "P", "p": a, "p2": b, "kind": "values", "kind2": "gauss" if (len(P) % 2) else "values"})
@@ -122,6 +124,15 @@ def check(ctx):
                     continue  # not parameters of Probe
                 R.append({"space": "R", "p": p, "kind": k, "via": via})
     R.append({"space": "R", "p": "defocus", "kind": "gauss", "via": "apply_ctf", "p2": "C30"})
+    # L: the same ensembles evaluated lazily with the parameter axis split into dask blocks of 1, 2, 3 members (5-member distributions)
+    L = []
+    for p in ["defocus", "C30", "phi12", "semiangle_cutoff", "focal_spread", "angular_spread"] + ([] if q else ["C12", "C21", "C50"]):
+        for k in ("values", "gauss"):
+            for via in ("apply_ctf",) + (("Aberrations",) if p in ("C30", "phi12") else ()):
+                L.append({"space": "L", "p": p, "kind": k, "via": via})
+    for who in ("PlaneWave", "Probe"):
+        L.append({"space": "L", "p": "tilt", "kind": "values", "via": who})
+    ctx.run(L, "run_case", rule="L: 5-member parameter ensembles, lazy with max_batch 1, 2, 3, auto vs eager", space="L lazy partitions")
     ctx.run(T, "run_case", rule="T: (parameter, distribution kind, entry point)", space="T transform members")
     ctx.run(P, "run_case", rule="P: parameter pairs", space="P pairs")
     ctx.run(B, "run_case", rule="B: builder parameters, tilt representations, scans", space="B builders")
@@ -220,7 +231,65 @@ class V:
 
 
 def run_case(c):
-    return {"T": run_T, "P": run_P, "B": run_B, "R": run_R}[c["space"]](c)
+    return {"T": run_T, "P": run_P, "B": run_B, "R": run_R, "L": run_L}[c["space"]](c)
+
+
+def run_L(c):
+    """member i of the lazily evaluated, block-partitioned ensemble == member i of the eager one == scalar run i"""
+    import abtem
+    import abtem.distributions as D
+
+    v = V(c)
+    p, via = c["p"], c["via"]
+    if p == "tilt":
+        pairs = np.array([[0.0, 0.0], [2.0, -1.0], [-3.0, 4.0], [5.0, 5.0], [-1.0, -6.0]])
+        pot = abtem.PotentialArray(np.zeros((2, 16, 12), np.float32), slice_thickness=2.0, extent=(4, 3))
+
+        def run(lazy, mb):
+            kw = dict(energy=E, tilt=pairs, **GRID)
+            b = abtem.PlaneWave(**kw) if via == "PlaneWave" else abtem.Probe(semiangle_cutoff=25, **kw)
+            args = {} if via == "PlaneWave" else {"scan": abtem.CustomScan([[1.0, 0.5]])}
+            out = b.multislice(pot, lazy=lazy, **({"max_batch": mb} if lazy else {}), **args)
+            return np.asarray((out.compute() if lazy else out).array), None
+        vals = list(range(5))
+    else:
+        base = np.asarray(values_of(p), float)
+        five = np.linspace(base.min(), base.max(), 5) if base.max() > base.min() else base.min() + np.arange(5.0)
+        d = D.from_values(five) if c["kind"] == "values" else D.gaussian((five.max() - five.min()) / 4, 5, center=float(five.mean()), sampling_limit=2.0)
+        vals = [float(x) for x in np.asarray(d.values)]
+        comp = companion(p)
+
+        def run(lazy, mb):
+            w = incident()
+            if lazy:
+                w = w.ensure_lazy()
+                t = transform_from(via, dict(comp, **{p: d}))
+                out = w.apply_ctf(t, max_batch=mb) if via == "apply_ctf" else w.apply_transform(t, max_batch=mb)
+                chunks = out.array.chunks  # read before compute(), which replaces the dask array in place
+                return np.asarray(out.compute().array), chunks
+            return np.asarray(apply(via, w, dict(comp, **{p: d})).array), None
+    eager, _ = run(False, None)
+    v.tr += 1
+    seen = set()
+    for mb in (1, 2, 3, "auto"):
+        try:
+            lz, chunks = run(True, mb)
+        except Exception as e:  # noqa: BLE001
+            v.bad("lazy-partition/raises/%s" % type(e).__name__, "max_batch=%r raised %s: %s" % (mb, type(e).__name__, str(e)[:120]))
+            continue
+        v.tr += 1
+        seen.add(str(chunks[0]) if chunks else "?")
+        if lz.shape != eager.shape:
+            v.bad("lazy-partition/shape", "max_batch=%r: lazy shape %r, eager %r" % (mb, lz.shape, eager.shape))
+            continue
+        from mc.compare import err
+
+        per = [err(lz[i], eager[i], RTOL, atol=1e-12) for i in range(len(vals))]
+        v.worst = max(v.worst, max(per))
+        if max(per) > 1.0:
+            v.bad("lazy-partition/members/%s" % ("tilt" if p == "tilt" else via), "max_batch=%r (parameter-axis chunks %r): members %r of the lazy ensemble differ from the eager ones" % (
+                mb, chunks[0] if chunks else None, [i for i, e_ in enumerate(per) if e_ > 1.0]))
+    return v.result(obs="chunks " + ",".join(sorted(seen)))
 
 
 def run_T(c):
